@@ -224,6 +224,12 @@ func runC10(p *core.Program, r *core.Report) {
 		}
 	}
 
+	// "every generated atom is a kept word or its title-cased form": the generator indexes the
+	// kept words and capitalises with the same strings.Title the twin removal uses (= C04 R4.4 re-run)
+	if g, _ := resolveWLGen(p); g != nil {
+		r.Borrow("R10.3", func() { checkTitleIffCap(p, r, g, "R4.4") })
+	}
+
 	// R10.4 empty list
 	checkEmptyListRejected(p, r, c)
 
